@@ -49,6 +49,9 @@ pub enum K {
     /// `FromIterator` over a sequence in which every key occurs twice (second time with another
     /// value and the other representation): the last occurrence wins
     FromIterDup,
+    /// `FromIterator` over a long sequence (every key six times, interleaved, not sorted by
+    /// length, alternating representations): the last occurrence of every key wins
+    FromIterBig,
 }
 
 #[derive(Clone, Copy, Debug, PartialEq, Eq, Hash, PartialOrd, Ord)]
@@ -61,7 +64,7 @@ pub struct Op {
     pub arg: u32,
 }
 
-pub const ALL_KINDS: [K; 25] = [
+pub const ALL_KINDS: [K; 26] = [
     K::Insert,
     K::EntryInsert,
     K::EntryOrInsert,
@@ -87,6 +90,7 @@ pub const ALL_KINDS: [K; 25] = [
     K::IntoChildrenCollect,
     K::RecollectRev,
     K::FromIterDup,
+    K::FromIterBig,
 ];
 
 pub fn kind_from_name(name: &str) -> Option<K> {
@@ -600,6 +604,34 @@ pub fn apply<P: PType>(map: &mut PrefixMap<P, u32>, model: &mut Model, w: &Walk,
             }
             *map = seq.into_iter().collect();
         }
+        K::FromIterBig => {
+            let old = std::mem::take(map);
+            let n = old.len();
+            let first: Vec<(P, u32)> = old.into_iter().take(cap(n)).collect();
+            let mut seq: Vec<(P, u32)> = vec![];
+            // six rounds; within a round the keys come longest-first in even rounds and
+            // shortest-first in odd rounds, so the sequence is not sorted by length
+            for round in 0..6u32 {
+                let mut items: Vec<(GK, u32)> = first
+                    .iter()
+                    .enumerate()
+                    .map(|(i, (p, _))| {
+                        let nk = norm(p.raw());
+                        let k = with_rep(nk, ((round + i as u32) % 2) as u8, uni.width);
+                        (if P::KEEPS_HOST { k } else { nk }, tok + round * 50 + i as u32)
+                    })
+                    .collect();
+                items.sort_by_key(|(k, _)| k.1);
+                if round % 2 == 0 {
+                    items.reverse();
+                }
+                for (k, v) in items {
+                    seq.push((mkp(k), v));
+                    model.insert(k, v);
+                }
+            }
+            *map = seq.into_iter().collect();
+        }
         K::IntoChildrenCollect => {
             let old = std::mem::take(map);
             let n = old.len();
@@ -671,6 +703,8 @@ pub fn enumerate_ops(uni: &Universe, model: &Model, alpha: Alphabet, rep_mode: u
             (K::Insert, vec![0]),
             (K::EntryInsert, vec![0]),
             (K::EntryOrInsert, vec![0]),
+            (K::EntryOrInsertWith, vec![0]),
+            (K::EntryOrDefault, vec![0]),
             (K::EntryAndModifyOrInsert, vec![0]),
             (K::EntryMatch, vec![0, 1, 2]),
             (K::Remove, vec![0]),
@@ -695,12 +729,12 @@ pub fn enumerate_ops(uni: &Universe, model: &Model, alpha: Alphabet, rep_mode: u
     // key-less operations
     v.push(Op { kind: K::Clear, key: 0, rep: 0, arg: 0 });
     if alpha == Alphabet::Repr {
-        for kind in [K::CloneSelf, K::Recollect, K::RecollectRev, K::FromIterDup] {
+        for kind in [K::CloneSelf, K::Recollect, K::RecollectRev, K::FromIterDup, K::FromIterBig] {
             v.push(Op { kind, key: 0, rep: 0, arg: 0 });
         }
     }
     if alpha == Alphabet::Full {
-        for kind in [K::IterMutWrite, K::ValuesMutWrite, K::CloneSelf, K::Recollect, K::RecollectRev, K::FromIterDup] {
+        for kind in [K::IterMutWrite, K::ValuesMutWrite, K::CloneSelf, K::Recollect, K::RecollectRev, K::FromIterDup, K::FromIterBig] {
             v.push(Op { kind, key: 0, rep: 0, arg: 0 });
         }
     } else if alpha == Alphabet::Canonical {
